@@ -137,7 +137,8 @@ func TestVerif_C01_ServerCanaries(t *testing.T) {
 	defer rec.Flush()
 	rapid.Check(t, func(rt *rapid.T) {
 		defer recoverWedged(rec)
-		tc := mustBoot(t, coreOpts{transactional: rapid.Bool().Draw(rt, "transactionalStorage"),
+		rawEndpoint := rapid.Bool().Draw(rt, "rawStorageEndpoint")
+		tc := mustBoot(t, coreOpts{transactional: rapid.Bool().Draw(rt, "transactionalStorage"), raw: rawEndpoint,
 			logical:    map[string]logical.Factory{"kv": logicalKv.Factory, "transit": logicalTransit.Factory, "pki": logicalPki.Factory, "ssh": logicalSsh.Factory, "totp": logicalTotp.Factory},
 			credential: map[string]logical.Factory{"userpass": credUserpass.Factory, "approle": credAppRole.Factory}})
 		w := &c01World{t: t, tc: tc}
@@ -188,6 +189,25 @@ func TestVerif_C01_ServerCanaries(t *testing.T) {
 				c := w.canary(rt)
 				r := tc.doCtx(nsCtx, &logical.Request{Operation: logical.UpdateOperation, Path: "kv1/k", ClientToken: tc.root, Data: map[string]any{"v": c}})
 				w.logf("ns kv write -> %v", r)
+			},
+			// an operator writes through the raw storage endpoint (served by half of the servers) to keys that are NOT
+			// among the bootstrap records but look like them - a backup copy next to one, a key below one, a longer
+			// name - and to ordinary keys: whatever the key, the value goes through the barrier
+			"raw-write": func(rt *rapid.T) {
+				if !rawEndpoint {
+					rt.Skip("raw endpoint not served")
+				}
+				c := w.canary(rt)
+				stem := []string{"core/seal-config", "core/recovery-config", "core/hsm/barrier-unseal-keys", "core/recovery-key", "core/unseal-keys-backup", "core/keyring", "scratch/operator"}[fairIndex(rt, "near", 7)]
+				key := stem + []string{".bak", "/backup/a", "-old", "2", ".d/x"}[fairIndex(rt, "suffix", 5)]
+				r := tc.req(logical.UpdateOperation, "sys/raw/"+key, tc.root, map[string]any{"value": c})
+				w.logf("raw write %s -> %v", key, r)
+				if r.ok() {
+					rd := tc.req(logical.ReadOperation, "sys/raw/"+key, tc.root, nil)
+					if !rd.ok() || rd.resp == nil || rd.resp.Data["value"] != c {
+						fail("raw-write-does-not-read-back", fmt.Sprintf("raw write to %s does not read back: %v", key, rd))
+					}
+				}
 			},
 			"cubbyhole": func(rt *rapid.T) {
 				c := w.canary(rt)
